@@ -250,6 +250,7 @@ Definition global_const (p : list string) : option val :=
 Definition ctor_table (p : list string) : option (string * list string) :=
   if path_eqb p ["types"; "Position"] then Some ("Position", ["line"; "character"])
   else if path_eqb p ["ResponseError"] then Some ("ResponseError", ["code"; "message"; "data"])
+  else if path_eqb p ["types"; "Range"] then Some ("Range", ["start"; "end"])
   else None.
 
 Definition py_getattr (v : val) (a : string) : res val :=
@@ -283,6 +284,15 @@ Definition builtin (g : string) (args : list val) : option (res val) :=
     Some (match args with
           | [VInt a; VInt b] => Ok (VInt (Z.min a b))
           | _ => Stuck "min"
+          end)
+  else if String.eqb g "isinstance" then
+    (* isinstance(obj, types.C) for the attrs classes of lsprotocol that have no subclasses among
+       themselves (gen_ast.py asserts that): the class name of the instance is C *)
+    Some (match args with
+          | [VObj cls _; VGlobal [m; c]] => if String.eqb m "types" then Ok (VBool (String.eqb cls c)) else Stuck "isinstance"
+          | [VInt _; VGlobal [m; c]] | [VBool _; VGlobal [m; c]] | [VStr _; VGlobal [m; c]] | [VNone; VGlobal [m; c]] =>
+            if String.eqb m "types" then Ok (VBool false) else Stuck "isinstance"
+          | _ => Stuck "isinstance"
           end)
   else if String.eqb g "max" then
     Some (match args with
@@ -373,7 +383,8 @@ Inductive expr :=
 | ETuple (es : list expr)
 | ESumGen (elt : expr) (x : string) (iter : expr)     (* sum(elt for x in iter) *)
 | EGetattr (e : expr) (a : string) (d : option expr)  (* getattr(e, "a") / getattr(e, "a", d) *)
-| EFString (parts : list expr).      (* f"..{e}.." without conversions / format specs; parts must be str *)
+| EFString (parts : list expr)       (* f"..{e}.." without conversions / format specs; parts must be str *)
+| EProp (e : expr) (name : string).  (* e.name where name is a translated @property of e's class *)
 
 Inductive stmt :=
 | SAssign (x : string) (e : expr)
@@ -389,10 +400,18 @@ Inductive stmt :=
 | SExpr (e : expr)
 | SRaise (k : exn) (args : list expr)
 | STry (body : list stmt) (handlers : list (list exn * list stmt))
-| SSuperInit (base : string) (args : list expr) (kwargs : list (string * expr)).
+| SSuperInit (base : string) (args : list expr) (kwargs : list (string * expr))
     (* `super().__init__(..)` as a statement of an __init__ whose class has the single base `base` *)
+| SReturnSelf                                            (* `return` / `return None` in a procedure *)
+| SSelfCall (m : string) (args : list expr) (kwargs : list (string * expr))
+    (* `self.m(..)` as a statement, m a procedure: self is rebound to what the call leaves *)
+| SMutCall (x : string) (m : string) (args : list expr)  (* `x.m(..)` as a statement, x a local holding a builtin mutable object *)
+| SForEnum (xi xv : string) (iter : expr) (body : list stmt).   (* for xi, xv in enumerate(iter) *)
 
-Inductive fkind := KFunction | KMethod | KClassMethod.
+(* KProcedure: a method that never returns a value (Python: None) and may assign attributes of self;
+   here a call of it yields the self it leaves (values are immutable), and it is only ever called as
+   the statement SSelfCall *)
+Inductive fkind := KFunction | KMethod | KClassMethod | KProcedure.
 
 Record fundef := mkFun {
   fqual : list string;                        (* [function] or [class; method] *)
@@ -448,13 +467,98 @@ Definition re_drive_letter_match (s : list N) : bool :=
   | _ => false
   end.
 
+(* text_document.py: RE_LINE = [^\r\n]*(?:\r\n|\r|\n)|[^\r\n]+ , findall = Base/PyStr.lsp_lines;
+   RE_END_WORD = ^[A-Za-z_0-9]* and RE_START_WORD = [A-Za-z_0-9]*$ (no flags), findall as the
+   scanners below (the same definitions as in Model/DocQuery.v).  gen_ast.py checks the literals. *)
+Definition re_is_word (c : N) : bool :=
+  (((65 <=? c) && (c <=? 90)) || ((97 <=? c) && (c <=? 122)) || (c =? 95) || ((48 <=? c) && (c <=? 57)))%N.
+Fixpoint re_word_prefix (s : list N) : list N :=
+  match s with [] => [] | c :: r => if re_is_word c then c :: re_word_prefix r else [] end.
+Fixpoint re_skip_word (s : list N) : list N :=
+  match s with [] => [] | c :: r => if re_is_word c then re_skip_word r else s end.
+(* `$` without MULTILINE: at the end, or just before a final LF *)
+Definition re_at_dollar (rest : list N) : bool :=
+  match rest with [] => true | [c] => (c =? 10)%N | _ => false end.
+(* RE_END_WORD.findall(s): `^` matches at 0 only: exactly one (possibly empty) match *)
+Definition re_end_word_findall (s : list N) : list (list N) := [re_word_prefix s].
+(* RE_START_WORD.findall(s): scan from the left; at a position the greedy run must end at `$`
+   (giving characters back cannot help); after a match the scan goes on behind it, after an empty
+   match one character further; the end of the string is tried too *)
+Fixpoint re_start_word_findall_fuel (n : nat) (s : list N) : list (list N) :=
+  match n with
+  | O => []
+  | S n' =>
+    if re_at_dollar (re_skip_word s) then
+      match re_word_prefix s with
+      | [] => [] :: match s with [] => [] | _ :: r => re_start_word_findall_fuel n' r end
+      | w => w :: re_start_word_findall_fuel n' (re_skip_word s)
+      end
+    else match s with [] => [] | _ :: r => re_start_word_findall_fuel n' r end
+  end.
+Definition re_start_word_findall (s : list N) : list (list N) :=
+  re_start_word_findall_fuel (S (S (length s))) s.
+
 Definition global_method (p : list string) (args : list val) : option (res val) :=
   if path_eqb p ["RE_DRIVE_LETTER_PATH"; "match"] then
     Some (match args with
           | [VStr s] => Ok (if re_drive_letter_match s then VObj "re.Match" [] else VNone)
           | _ => Stuck "RE_DRIVE_LETTER_PATH.match"
           end)
+  else if path_eqb p ["RE_LINE"; "findall"] then
+    Some (match args with [VStr s] => Ok (VList (map VStr (lsp_lines s))) | _ => Stuck "RE_LINE.findall" end)
+  else if path_eqb p ["RE_START_WORD"; "findall"] then
+    Some (match args with
+          | [VStr s] => Ok (VList (map VStr (re_start_word_findall s)))
+          | _ => Stuck "RE_START_WORD.findall"
+          end)
+  else if path_eqb p ["RE_END_WORD"; "findall"] then
+    Some (match args with
+          | [VStr s] => Ok (VList (map VStr (re_end_word_findall s)))
+          | _ => Stuck "RE_END_WORD.findall"
+          end)
+  else if path_eqb p ["io"; "StringIO"] then
+    (* an empty text buffer; it is written to by the statement SMutCall only *)
+    Some (match args with [] => Ok (VObj "StringIO" [("buf", VStr [])]) | _ => Stuck "io.StringIO with an argument" end)
+  else if path_eqb p ["logger"; "error"] || path_eqb p ["logger"; "warning"] || path_eqb p ["logger"; "info"]
+          || path_eqb p ["logger"; "debug"] then
+    Some (Ok VNone)                    (* logging: nothing the models observe *)
   else None.
+
+(* methods of the builtin objects that values can hold *)
+Definition obj_method (cls m : string) (fields : list (string * val)) (args : list val) : option (res val) :=
+  if String.eqb cls "StringIO" then
+    if String.eqb m "getvalue" then
+      Some (match args, get "buf" fields with [], Some b => Ok b | _, _ => Stuck "StringIO.getvalue" end)
+    else Some (Stuck "StringIO method in an expression")
+  else None.
+
+(* ... and the ones that change the object (statement SMutCall: the local is rebound) *)
+Definition obj_mutator (m : string) (v : val) (args : list val) : res val :=
+  match v with
+  | VObj cls fields =>
+    if String.eqb cls "StringIO" && String.eqb m "write" then
+      match args, get "buf" fields with
+      | [VStr t], Some (VStr b) => Ok (VObj cls [("buf", VStr (b ++ t)%list)])
+      | _, _ => Stuck "StringIO.write"
+      end
+    else Stuck "unknown mutating method"
+  | _ => Stuck "mutating method on this value"
+  end.
+
+(* sum(elt for x in l) over a list: left to right from 0 *)
+Fixpoint sum_vals (f : val -> res val) (l : list val) (acc : Z) : res val :=
+  match l with
+  | [] => Ok (VInt acc)
+  | v :: r =>
+    match f v with
+    | Ok w => match as_int w with
+              | Some z => sum_vals f r (acc + z)
+              | None => Raise TypeError
+              end
+    | Raise k => Raise k
+    | Stuck w => Stuck w
+    end
+  end.
 
 Section Eval.
 Variable call : callT.
@@ -566,7 +670,11 @@ Fixpoint eval (env : envT) (e : expr) {struct e} : res val :=
           match eval_kw with
           | Ok kw =>
             match rv with
-            | VObj cls _ => call [cls; m] (Some rv) vs kw
+            | VObj cls fields =>
+              match obj_method cls m fields vs with
+              | Some r => match kw with [] => r | _ => Stuck "builtin method with keywords" end
+              | None => call [cls; m] (Some rv) vs kw
+              end
             | VStr s => match kw with [] => str_method m s vs | _ => Stuck "str method with keywords" end
             | VGlobal p => apply_global (snoc p m) vs kw
             | _ => Stuck "method call on this value"
@@ -631,6 +739,12 @@ Fixpoint eval (env : envT) (e : expr) {struct e} : res val :=
          | Raise k => Raise k | Stuck w => Stuck w
          end
        end) parts
+  | EProp e name =>
+    match eval env e with
+    | Ok (VObj cls fields) => call [cls; name] (Some (VObj cls fields)) [] []
+    | Ok _ => Stuck "property of a non-object"
+    | Raise k => Raise k | Stuck w => Stuck w
+    end
   | EGetattr e a d =>
     match eval env e with
     | Ok v =>
@@ -647,7 +761,8 @@ Fixpoint eval (env : envT) (e : expr) {struct e} : res val :=
   | ESumGen elt x iter =>
     match eval env iter with
     | Ok (VStr s) => sum_chars (fun c => eval (set x (VStr [c]) env) elt) s 0
-    | Ok _ => Stuck "generator over a non-str"
+    | Ok (VList l) => sum_vals (fun v => eval (set x v env) elt) l 0
+    | Ok _ => Stuck "generator over a non-sequence"
     | Raise k => Raise k | Stuck w => Stuck w
     end
   end.
@@ -681,6 +796,19 @@ Fixpoint while_loop (cond : envT -> res val) (body : envT -> outcome) (n : nat) 
       else ONormal env
     | Raise k => ORaise k env
     | Stuck w => OStuck w
+    end
+  end.
+
+(* `for xi, xv in enumerate(l)`: no fuel, the list is finite *)
+Fixpoint for_enum (body : envT -> outcome) (xi xv : string) (l : list val) (idx : Z) (env : envT) : outcome :=
+  match l with
+  | [] => ONormal env
+  | v :: r =>
+    match body (set xv v (set xi (VInt idx) env)) with
+    | ONormal env' => for_enum body xi xv r (idx + 1) env'
+    | OContinue env' => for_enum body xi xv r (idx + 1) env'
+    | OBreak env' => ONormal env'
+    | o => o
     end
   end.
 
@@ -817,6 +945,64 @@ Fixpoint exec (env : envT) (s : stmt) {struct s} : outcome :=
       end
     | Raise k => ORaise k env | Stuck w => OStuck w
     end
+  | SReturnSelf =>
+    match get "self" env with Some sv => OReturn sv | None => OStuck "procedure without self" end
+  | SSelfCall m args kwargs =>
+    match (fix go (es : list expr) : res (list val) :=
+             match es with
+             | [] => Ok []
+             | e :: r => match eval env e with
+                         | Ok v => match go r with Ok vs => Ok (v :: vs) | Raise k => Raise k | Stuck w => Stuck w end
+                         | Raise k => Raise k | Stuck w => Stuck w
+                         end
+             end) args with
+    | Ok vs =>
+      match (fix go (es : list (string * expr)) : res (list (string * val)) :=
+               match es with
+               | [] => Ok []
+               | (x, e) :: r => match eval env e with
+                                | Ok v => match go r with Ok ws => Ok ((x, v) :: ws) | Raise k => Raise k | Stuck w => Stuck w end
+                                | Raise k => Raise k | Stuck w => Stuck w
+                                end
+               end) kwargs with
+      | Ok kw =>
+        match get "self" env with
+        | Some (VObj cls fields) =>
+          match call [cls; m] (Some (VObj cls fields)) vs kw with
+          | Ok sv' => ONormal (set "self" sv' env)
+          | Raise k => ORaise k env | Stuck w => OStuck w
+          end
+        | _ => OStuck "self.m(..) without an instance"
+        end
+      | Raise k => ORaise k env | Stuck w => OStuck w
+      end
+    | Raise k => ORaise k env | Stuck w => OStuck w
+    end
+  | SMutCall x m args =>
+    match (fix go (es : list expr) : res (list val) :=
+             match es with
+             | [] => Ok []
+             | e :: r => match eval env e with
+                         | Ok v => match go r with Ok vs => Ok (v :: vs) | Raise k => Raise k | Stuck w => Stuck w end
+                         | Raise k => Raise k | Stuck w => Stuck w
+                         end
+             end) args with
+    | Ok vs =>
+      match get x env with
+      | Some v => match obj_mutator m v vs with
+                  | Ok v' => ONormal (set x v' env)
+                  | Raise k => ORaise k env | Stuck w => OStuck w
+                  end
+      | None => OStuck "unbound local"
+      end
+    | Raise k => ORaise k env | Stuck w => OStuck w
+    end
+  | SForEnum xi xv iter body =>
+    match eval env iter with
+    | Ok (VList l) => for_enum (fun env => block env body) xi xv l 0 env
+    | Ok _ => OStuck "enumerate over a non-list"
+    | Raise k => ORaise k env | Stuck w => OStuck w
+    end
   | STry body handlers =>
     match block env body with
     | ORaise k env' =>
@@ -887,6 +1073,8 @@ Fixpoint is_init (q : list string) : bool :=
   | _ :: r => is_init r
   end.
 
+Definition is_procedure (k : fkind) : bool := match k with KProcedure => true | _ => false end.
+
 Definition run_fun (call : callT) (fuel : nat) (fd : fundef)
            (recv : option val) (args : list val) (kw : list (string * val)) : res val :=
   let all_args : res (list val) :=
@@ -894,6 +1082,8 @@ Definition run_fun (call : callT) (fuel : nat) (fd : fundef)
     | KFunction, _ => Ok args
     | KMethod, Some (VObj c f) => Ok (VObj c f :: args)
     | KMethod, _ => Stuck "method without an instance"
+    | KProcedure, Some (VObj c f) => Ok (VObj c f :: args)
+    | KProcedure, _ => Stuck "method without an instance"
     | KClassMethod, Some r => match class_of r with Some c => Ok (c :: args) | None => Stuck "classmethod receiver" end
     | KClassMethod, None => Stuck "classmethod without a receiver"
     end in
@@ -905,7 +1095,7 @@ Definition run_fun (call : callT) (fuel : nat) (fd : fundef)
         match exec_block call fuel env (fbody fd) with
         | ONormal env' =>
           (* calling `__init__` yields the initialised instance (values are immutable here) *)
-          if is_init (fqual fd) then
+          if is_init (fqual fd) || is_procedure (fkind_of fd) then
             match get "self" env' with Some sv => Ok sv | None => Stuck "__init__ without self" end
           else Ok VNone
         | OReturn v => if is_init (fqual fd) then Stuck "return in __init__" else Ok v
